@@ -53,7 +53,7 @@ Print Assumptions first_match_is_longest.
 
 Theorem reachable_states_satisfy_invariant :
   forall (ct : ctab) (pt : ptab) (ops : list op) (s : state) (ls : lstate),
-    Inv ct pt s ls -> clean_run pt s ops = true -> exists ls', Inv ct pt (final pt s ops) ls'.
+    Inv ct pt s ls -> clean_run pt s ops = true -> exists ls', Inv ct pt (final_state pt s ops) ls'.
 Proof. exact final_Inv. Qed.
 Print Assumptions reachable_states_satisfy_invariant.
 
@@ -159,6 +159,42 @@ Theorem untyped_names_accept_any_value :
     o_out (snd (step pt s (OSet n v))) = Done /\ o_out (snd (step pt s1 (OGet n))) = Val v.
 Proof. exact untyped_accepts. Qed.
 Print Assumptions untyped_names_accept_any_value.
+
+(* Two instances of one class share the class dictionary with its cached resolutions and
+   nothing else: after any (clean) history on a first instance, every history on a fresh
+   second instance still satisfies the law. *)
+Theorem second_instance_shares_only_the_cache :
+  forall (h : list classdef) (c : nat) (pre ops : list op) (i : Z),
+    let t := class_tables h c in
+    clean_run (snd t) (init_state (fst t)) pre = true ->
+    let s2 := mkState (s_ctd (final_state (snd t) (init_state (fst t)) pre)) [] [] in
+    clean_run (snd t) s2 ops = true ->
+    law_hist (spec_rule h c) i l_init (run (snd t) s2 ops) = [].
+Proof. exact law_second_instance. Qed.
+Print Assumptions second_instance_shares_only_the_cache.
+
+Theorem second_instance_tables :
+  forall h c pre, (c < length (tables h))%nat ->
+    tabs_nth (staged_tables h c pre []) c =
+    (s_ctd (final_state (snd (tabs_nth (tables h) c)) (init_state (fst (tabs_nth (tables h) c))) pre),
+     snd (tabs_nth (tables h) c)).
+Proof. exact staged_same_class. Qed.
+Print Assumptions second_instance_tables.
+
+(* classes created before any instance is used get the plain tables (the case the main theorem covers) *)
+Theorem classes_created_before_use_are_plain :
+  forall h1 k h2, staged_tables h1 k [] h2 = tables (h1 ++ h2).
+Proof. exact staged_no_pre. Qed.
+Print Assumptions classes_created_before_use_are_plain.
+
+(* ... and a class created AFTER an instance of its base was used violates the law (listed finding):
+   class A(HasTraits): a_ = Int;  A().ab = 1;  class B(A): a_ = Str;  B().ab = "s1" *)
+Theorem late_class_inherits_cache_refuted : exists h1 k pre h2 c ops,
+  let t := tabs_nth (staged_tables (roots ++ h1) k pre h2) c in
+  clean_run (snd t) (init_state (fst t)) ops = true /\
+  law_hist (spec_rule (h1 ++ h2) c) 0 l_init (run (snd t) (init_state (fst t)) ops) <> [].
+Proof. exact late_class_refutes. Qed.
+Print Assumptions late_class_inherits_cache_refuted.
 
 (* Non-vacuity: a hierarchy with overlapping wildcards in two bases under a strict and a
    private root; a clean history with an instance trait shadowing and being removed, a
